@@ -1,4 +1,6 @@
-import Proofs.FilterInter
+import Proofs.FilterInter2
+import Proofs.FilterHeader
+import Proofs.FilterPhrase
 /-!
 # C11 — Filtering keeps exactly the n-grams a restricted decoder can query
 
@@ -67,6 +69,21 @@ theorem header_counts (a : Arpa) (vs : Item → Verdict) (k : Nat) :
       sectionsBody 1 (a.orders.map (keptLines vs k)) ++ bEnd ++ [10] :=
   ⟨_, rfl⟩
 
+/-- **header_counts at the level of `ARPAOutput`'s counter**: the calls that reach output file
+`k` during the sequential run (= during every threaded run, C12 `ctl_output_arpa`), fed to the
+model of `ARPAOutput` (`BeginLength` resets the counter, `AddNGram` increments it, `EndLength`
+stores it per order, `Finish` writes the counts over the reservation), produce exactly
+`arpaFile`: the header counts the lines actually written in each section. -/
+theorem header_counts_counter (a : Arpa) (vs : Item → Verdict) (k : Nat) :
+    KV.FilterDrv.renderArpa (countsHeader a.counts).length
+        (KV.FilterCtl.fileLog k (KV.FilterCtl.seqLog vs (KV.FilterCtl.arpaProgram a.orders))) = arpaFile a vs k :=
+  KV.FilterDrv.renderArpa_seqLog a vs k
+
+/-- raw format counterpart: the calls that reach file `k`, written by `CountOutput`, are `rawFile` -/
+theorem raw_counter (items : List Item) (vs : Item → Verdict) (k : Nat) :
+    KV.FilterDrv.renderRaw (KV.FilterCtl.fileLog k (KV.FilterCtl.seqLog vs (KV.FilterCtl.rawProgram items))) = rawFile items vs k :=
+  KV.FilterDrv.renderRaw_seqLog items vs k
+
 /-! ## which n-grams are kept -/
 
 /-- **kept_iff_single**: kept iff every word other than a `<tag>` is in the vocabulary -/
@@ -89,12 +106,8 @@ theorem single_verdict_cases (V : List Bytes) (o : Opts) (g : Bytes) :
     verdict (.single V) o g = .all ∨ verdict (.single V) o g = .only [] := by
   simp only [verdict, verdictWords]; split <;> simp
 
-/-- **kept_iff_union** (partial: the direction "kept ⇒ some sentence contains every non-tag
-word", i.e. soundness of `FirstIntersectionSorted` for the order of ranges the driver uses — the
-lemma `firstInter_mem` holds for *every* order, which covers `std::sort`'s unspecified ties.
-Missing: "some sentence contains them all ⇒ kept" (completeness of the restart loop; needs the
-sortedness of posting lists and the fuel bound) — covered by the correspondence run only). -/
-theorem kept_iff_union_partial (sents : List (List Bytes)) (o : Opts) (g : Bytes)
+/-- soundness half of `kept_iff_union` (no sortedness needed; any order of the ranges) -/
+theorem kept_union_sound (sents : List (List Bytes)) (o : Opts) (g : Bytes)
     (h : verdict (.union sents) o g = .all) :
     ∃ c : Nat, ∀ w ∈ (words (if o.context then contextOf g else g)).filter (fun w => !isTag w),
       ∃ sent : List Bytes, sents[c]? = some sent ∧ w ∈ sent := by
@@ -122,11 +135,8 @@ theorem kept_iff_union_partial (sents : List (List Bytes)) (o : Opts) (g : Bytes
         intro s hs
         exact firstInter_mem hf s ((mem_sortBySize s _).mpr hs)
 
-/-- **kept_iff_multi** (partial: "a line is sent to file `s` only if sentence `s` contains every
-non-tag word" — soundness of `AllIntersection`; and a line without non-tag words goes to all
-files.  Missing: every sentence of the intersection is reported, exactly once — covered by the
-correspondence run only). -/
-theorem kept_iff_multi_partial (sents : List (List Bytes)) (ws : List Bytes) (ks : List Nat) (s : Nat)
+/-- soundness half of `kept_iff_multi` (no sortedness needed; any order of the ranges) -/
+theorem kept_multi_sound (sents : List (List Bytes)) (ws : List Bytes) (ks : List Nat) (s : Nat)
     (h : multiVerdict sents ws = .only ks) (hs : s ∈ ks) :
     ∀ w ∈ ws.filter (fun w => !isTag w), ∃ sent : List Bytes, sents[s]? = some sent ∧ w ∈ sent := by
   unfold multiVerdict at h
@@ -142,6 +152,93 @@ theorem kept_iff_multi_partial (sents : List (List Bytes)) (ws : List Bytes) (ks
       apply gatherSets_spec sents ws _ hg s
       intro t ht
       exact allInterFuel_mem _ _ s hs t ((mem_sortBySize t _).mpr ht)
+
+/-- **kept_iff_union**: in union mode an n-gram is kept exactly when one sentence contains all
+its non-tag words (trivially so when it has none).  Uses soundness and completeness of
+`FirstIntersectionSorted`'s restart loop (`firstInter_isSome_iff`, valid for every order of the
+ranges — `std::sort` leaves ties unspecified) and that posting lists are strictly increasing. -/
+theorem kept_iff_union (sents : List (List Bytes)) (o : Opts) (g : Bytes) :
+    verdict (.union sents) o g = .all ↔
+      ∃ c : Nat, ∀ w ∈ (words (if o.context then contextOf g else g)).filter (fun w => !isTag w),
+        ∃ sent : List Bytes, sents[c]? = some sent ∧ w ∈ sent := by
+  constructor
+  · exact kept_union_sound sents o g
+  · rintro ⟨c, hc⟩
+    simp only [verdict, verdictWords]
+    generalize words (if o.context then contextOf g else g) = ws at hc ⊢
+    obtain ⟨sets, e, hcom, _⟩ := gatherSets_complete sents c ws hc
+    have hp : passUnion sents ws = true := by
+      unfold passUnion
+      rw [e]
+      cases sets with
+      | nil => rfl
+      | cons s0 rest =>
+        simp only
+        exact (firstInter_isSome_iff (sortBySize_ne_nil (by simp)) (sortBySize_allInc (gatherSets_inc sents ws _ e))).mpr
+          ⟨c, sortBySize_common.mpr hcom⟩
+    simp [hp]
+
+/-- **kept_iff_multi**: in multiple mode a line goes to all files iff it has no non-tag word;
+otherwise it goes to file `s` iff sentence `s` contains all its non-tag words, and each such
+file is named exactly once, in increasing order (`AllIntersection` enumerates exactly the
+intersection of the posting lists). -/
+theorem kept_iff_multi (sents : List (List Bytes)) (ws : List Bytes) :
+    (multiVerdict sents ws = .all ↔ ws.filter (fun w => !isTag w) = []) ∧
+    (∀ ks, multiVerdict sents ws = .only ks →
+      ks.Pairwise (· < ·) ∧
+      ∀ s : Nat, s ∈ ks ↔ (ws.filter (fun w => !isTag w) ≠ [] ∧
+        ∀ w ∈ ws.filter (fun w => !isTag w), ∃ sent : List Bytes, sents[s]? = some sent ∧ w ∈ sent)) := by
+  unfold multiVerdict
+  cases hg : gatherSets sents ws with
+  | none =>
+    have hno : ∀ s : Nat, ¬ (∀ w ∈ ws.filter (fun w => !isTag w), ∃ sent : List Bytes, sents[s]? = some sent ∧ w ∈ sent) := by
+      intro s hs
+      obtain ⟨sets, e, _, _⟩ := gatherSets_complete sents s ws hs
+      rw [hg] at e; cases e
+    refine ⟨⟨(by intro h; cases h), ?_⟩, ?_⟩
+    · intro hnil
+      exfalso
+      apply hno 0
+      intro w hw; rw [hnil] at hw; cases hw
+    · intro ks hks
+      injection hks with hks; subst hks
+      refine ⟨List.Pairwise.nil, fun s => ⟨(fun h => by cases h), fun h => absurd h.2 (hno s)⟩⟩
+  | some sets =>
+    have hnil := gatherSets_nil_iff sents ws sets hg
+    cases sets with
+    | nil =>
+      refine ⟨⟨fun _ => hnil.mp rfl, fun _ => rfl⟩, ?_⟩
+      intro ks hks; cases hks
+    | cons s0 rest =>
+      have hne : ws.filter (fun w => !isTag w) ≠ [] := fun h => by have := hnil.mpr h; cases this
+      refine ⟨⟨(by intro h; cases h), fun h => absurd h hne⟩, ?_⟩
+      intro ks hks
+      simp only at hks
+      injection hks with hks; subst hks
+      obtain ⟨h1, h2⟩ := allInter_spec (sortBySize_ne_nil (l := s0 :: rest) (by simp))
+        (sortBySize_allInc (gatherSets_inc sents ws _ hg))
+      refine ⟨h2, fun s => ?_⟩
+      rw [h1 s, sortBySize_common]
+      constructor
+      · intro hc
+        exact ⟨hne, gatherSets_spec sents ws _ hg s hc⟩
+      · rintro ⟨_, hall⟩
+        obtain ⟨sets', e', hc', _⟩ := gatherSets_complete sents s ws hall
+        rw [hg] at e'; injection e' with e'; subst e'
+        exact hc'
+
+/-- multiple mode: every file receives a sublist of the input lines (no line twice) -/
+theorem out_sublist_multiple (sents : List (List Bytes)) (o : Opts) (items : List Item) (k : Nat) :
+    (keptLines (fun it => verdict (.multiple sents) o it.ngram) k items).Sublist (items.map (·.line)) := by
+  apply out_sublist
+  intro it _
+  simp only [verdict, verdictWords]
+  generalize words (if o.context then contextOf it.ngram else it.ngram) = ws
+  cases hv : multiVerdict sents ws with
+  | all => simp [Verdict.copies]
+  | only ks =>
+    simp only [Verdict.copies]
+    exact Inc.count_le_one ((kept_iff_multi sents ws).2 ks hv).1 k
 
 /-- **context_option**: with `context` the filter looks at the n-gram without its last word
 (everything before the last space at a position > 0) -/
@@ -257,14 +354,70 @@ example :
   simp only [List.all_eq_true]
   exact hg
 
-/-! ## phrase mode (specification only) -/
+/-! ## phrase mode
 
-/-- `g` can be read off a concatenation of phrases: a (possibly empty) proper suffix of a
-phrase, then whole phrases, then a (possibly empty) proper prefix of a phrase — or `g` is a
-substring of one phrase. -/
-def Tiles (phrases : List (List Bytes)) (g : List Bytes) : Prop :=
-  (∃ p ∈ phrases, ∃ a b, p = a ++ g ++ b) ∨
-  (∃ (suf : List Bytes) (mid : List (List Bytes)) (pre : List Bytes), g = suf ++ mid.flatten ++ pre ∧ (∀ m ∈ mid, m ∈ phrases) ∧
-     (suf = [] ∨ ∃ p ∈ phrases, ∃ a, p = a ++ suf) ∧ (pre = [] ∨ ∃ p ∈ phrases, ∃ b, p = pre ++ b))
+`Tiles phrases g` (Proofs/FilterPhrase.lean): `g` is a contiguous part of one phrase, or a
+non-empty end of a phrase ++ whole phrases ++ a non-empty beginning of a phrase — exactly "can
+be read off a concatenation of the sentence's phrases".  `tilesB` is its executable form (the
+driver's lower bound `.must<k>`, cross-checked against an independent Python DP and a literal
+enumeration of concatenations).  `graphAccept` models the arcs `BuildGraph` creates from the
+`Substrings` tables, including the `break`s on absent keys, with acceptance = a path of arcs
+that all contain the sentence; the checks compare it **byte for byte** with `bin/filter phrase`.
+Not modelled, hence not proved: the lazy evaluation of that graph (`Vertex::LowerBound` /
+`Arc::LowerBound` with priority queues) and hashing — tied by that exact correspondence. -/
+
+/-- **phrase_sound** (one direction, as the property states; for the search graph): every
+n-gram that can be read off a concatenation of the phrases of sentence `s` is accepted for `s` -/
+theorem phrase_sound (sents : List (List (List Bytes))) (s : Nat) (g : List Bytes)
+    (h : Tiles (sents.getD s []) g) : graphAccept sents s g = true :=
+  tilesB_graphAccept sents s g (tilesB_of_Tiles _ g h)
+
+/-- … and therefore sentence `s` is among the outputs of the model of `phrase::Multiple`
+(resp. the n-gram passes `phrase::Union`) -/
+theorem phrase_sound_multiple (sents : List (List (List Bytes))) (ws : List Bytes) (s : Nat) (hs : s < sents.length)
+    (h : Tiles (sents.getD s []) (phraseWords ws)) :
+    phraseVerdict sents ws = .all ∨ ∃ ks, phraseVerdict sents ws = .only ks ∧ s ∈ ks := by
+  unfold phraseVerdict
+  by_cases hg : phraseWords ws = []
+  · left; simp [hg]
+  · right
+    simp only [hg, if_false]
+    refine ⟨_, rfl, ?_⟩
+    simp only [List.mem_filter, List.mem_range]
+    exact ⟨hs, phrase_sound sents s _ h⟩
+
+theorem phrase_sound_union (sents : List (List (List Bytes))) (ws : List Bytes) (s : Nat) (hs : s < sents.length)
+    (h : Tiles (sents.getD s []) (phraseWords ws)) : phraseVerdictUnion sents ws = .all := by
+  unfold phraseVerdictUnion
+  rcases phrase_sound_multiple sents ws s hs h with h | ⟨ks, h, hk⟩
+  · rw [h]
+  · rw [h]
+    cases ks with
+    | nil => cases hk
+    | cons k ks => rfl
+
+/-- the lower bound the checks enforce is implied by the graph model (so "tool = graph model"
+on a run implies "tool ⊇ Tiles" on that run) -/
+theorem must_le_graph (sents : List (List (List Bytes))) (ws : List Bytes) (ks : List Nat) (s : Nat)
+    (h : phraseMust sents ws = .only ks) (hs : s ∈ ks) :
+    ∃ ks', phraseVerdict sents ws = .only ks' ∧ s ∈ ks' := by
+  unfold phraseMust at h
+  unfold phraseVerdict
+  by_cases hg : phraseWords ws = []
+  · simp [hg] at h
+  · simp only [hg, if_false] at h ⊢
+    injection h with h; subst h
+    refine ⟨_, rfl, ?_⟩
+    simp only [List.mem_filter, List.mem_range] at hs ⊢
+    exact ⟨hs.1, tilesB_graphAccept sents s _ hs.2⟩
+
+/-- non-vacuity: the n-gram of seeded/C11-1 — `a b c d` tiles sentence 3 (`a | b c | d`) only
+(a = 97, b = 98, c = 99, d = 100, y = 121, z = 122) -/
+example :
+    let sents : List (List (List Bytes)) :=
+      [[[[98]]], [[[99]], [[100]]], [[[122]]], [[[97]], [[98], [99]], [[100]]], [[[122]], [[121]]], [[[97]], [[98]]]]
+    let g : List Bytes := [[97], [98], [99], [100]]
+    (List.range 6).filter (fun s => tilesB (sents.getD s []) g) = [3] ∧
+      (List.range 6).filter (fun s => graphAccept sents s g) = [3] := by decide
 
 end KV.C11
